@@ -31,7 +31,9 @@ def rand_reply(rng, code=None, maxlines=4, safe=True):
 
 MALFORMED = [b"", b"\r\n", b"250\r\n", b"250", b"25", b"250 ok\n", b"250 ok", b"250-a\r\n", b"250-a\r\n251 b\r\n", b"250-a\r\n250", b"abc\r\n",
              b"650 x\r\n", b"260 x\r\n", b"199 x\r\n", b"250_x\r\n", b"\xff\xfe\r\n", b"250 \xff\r\n", b"2500 x\r\n", b" 250 x\r\n",
-             b"250 a\r\n250 b\r\n", b"250-a\n250 b\r\n", b"\n", b"250-\r\n250 \r\n", b"250- \r\n250 x\r\n", b"354 \r\n", b"5", b"55\r\n"]
+             b"250 a\r\n250 b\r\n", b"250-a\n250 b\r\n", b"\n", b"250-\r\n250 \r\n", b"250- \r\n250 x\r\n", b"354 \r\n", b"5", b"55\r\n",
+             # physical lines (up to an LF) with '-' in fourth position that are no continuation lines of a reply
+             b"250 see\nRFC-5321 4.2\r\n", b"SSH-2.0-OpenSSH_9.6\r\n", b"+OK-POP3 ready\r\n", b"ERR-busy\r\n", b"250 a\n250-b\r\n", b"550 no\nxyz-\r\n"]
 
 EHLO_LINES = [b"8BITMIME", b"SMTPUTF8", b"STARTTLS", b"AUTH PLAIN", b"AUTH LOGIN", b"AUTH PLAIN LOGIN XOAUTH2", b"AUTH XOAUTH2 FOO", b"AUTH", b"auth plain",
               b"8bitmime", b"SIZE 1000", b"PIPELINING", b"AUTH=PLAIN", b" 8BITMIME", b"8BITMIME ", b"AUTH\tLOGIN", b"AUTH\xc2\xa0PLAIN", b"", b"X 8BITMIME"]
